@@ -107,7 +107,7 @@ func c03Probe(seed int64) string {
 func init() {
 	core.Register(&core.Check{
 		ID: "C03", Level: "exploration",
-		Rule: "(a) statements drawn simplest-first from the C01 sweeps (all n=1 over Z5, a third of n=2, a sixteenth of n=3 — all/half thorough —, labels, n=11 and 17 openings crossing 1024 pending transcript bytes and the worker count) + IPA proofs at in/out-of-domain points: serialized bytes and the post-proof challenge must equal the reference prover's; (b) each statement re-proved under NumCPU override {1,2,3,16,17,64,300}, every representation of the commitments, after unrelated earlier calls, and in child processes under real CPU affinity {1,2,3,4,8,16} and GOMAXPROCS {1,2,4,16}: bytes identical; (c) ALL schedules (DPOR, unbounded) of the MSM fan-in for the 2- and 3-point MSMs of the IPA rounds and of the grouping fan-in: one outcome; (d) every sync.Pool answer (reuse/other/new, objects poisoned on Put) at every Get inside transcript challenges and IPA proving, up to 2 deviations; non-trivial = every (statement, configuration) pair",
+		Rule:   "(a) statements drawn simplest-first from the C01 sweeps (all n=1 over Z5, a third of n=2, a sixteenth of n=3 — all/half thorough —, labels, n=11 and 17 openings crossing 1024 pending transcript bytes and the worker count) + IPA proofs at in/out-of-domain points: serialized bytes and the post-proof challenge must equal the reference prover's; (b) each statement re-proved under NumCPU override {1,2,3,16,17,64,300}, every representation of the commitments, after unrelated earlier calls, and in child processes under real CPU affinity {1,2,3,4,8,16} and GOMAXPROCS {1,2,4,16}: bytes identical; (c) ALL schedules (DPOR, unbounded) of the MSM fan-in for the 2- and 3-point MSMs of the IPA rounds and of the grouping fan-in: one outcome; (d) every sync.Pool answer (reuse/other/new, objects poisoned on Put) at every Get inside transcript challenges and IPA proving, up to 2 deviations; non-trivial = every (statement, configuration) pair",
 		Assume: []string{"reference prover = independent implementation of the specification (pinned by the IPA and multiproof byte vectors)", "NumCPU seam cross-validated against real affinity-restricted child processes"},
 		Units:  c03Units,
 	})
